@@ -352,6 +352,17 @@ Proof.
     apply POS.
 Qed.
 
+Lemma ist0_lookup : forall (b : bool) (n2i_name : option N) idx (ist : list (N * ifstate)) i,
+  n2i_name <> Some i ->
+  lookup N.eqb (match n2i_name with
+                | Some old => if N.eqb old idx then ist else if b then remove N.eqb ist old else ist
+                | None => ist
+                end) i = lookup N.eqb ist i.
+Proof.
+  intros b o idx ist i H. destruct o as [old|]; auto. destruct (N.eqb old idx); auto. destruct b; auto.
+  apply (lookup_remove_neq N.eqb N_eqb_spec). congruence.
+Qed.
+
 Lemma on_iface_I1 : forall cfg now name idx state s,
   wf_ifaces s -> wf_event s name idx state -> I1 cfg s ->
   I1 cfg (on_iface cfg now name idx state s) /\ wf_ifaces (on_iface cfg now name idx state s).
@@ -369,8 +380,10 @@ Proof.
     - apply (lookup_remove_neq String.eqb string_eqb_spec); congruence. }
   assert (forall n i, n <> name -> lookup String.eqb (s_n2i s) n = Some i -> state_of S2 i = state_of s i) as IST.
   { intros n i Hn Hi. unfold state_of, S2. destruct state; cbn; rewrite ?O5.
-    - destruct WE as [_ WE]. rewrite (lookup_set_neq N.eqb N_eqb_spec); auto. intro; subst; eapply WE; eauto.
-    - destruct WE as [_ WE]. rewrite (lookup_set_neq N.eqb N_eqb_spec); auto. intro; subst; eapply WE; eauto.
+    - destruct WE as [_ WE]. rewrite (lookup_set_neq N.eqb N_eqb_spec); [|intro; subst; eapply WE; eauto].
+      rewrite ?O3. rewrite ist0_lookup; auto. intro X. apply Hn. eapply INJ; eauto.
+    - destruct WE as [_ WE]. rewrite (lookup_set_neq N.eqb N_eqb_spec); [|intro; subst; eapply WE; eauto].
+      rewrite ?O3. rewrite ist0_lookup; auto. intro X. apply Hn. eapply INJ; eauto.
     - rewrite (lookup_remove_neq N.eqb N_eqb_spec); auto.
       destruct (lookup String.eqb (s_n2i s) name) as [old|] eqn:Eo.
       + intro; subst. apply Hn. eapply INJ; eauto.
